@@ -1341,3 +1341,176 @@ def csum_dom(chk, program, rule='CSUM-DOM'):
                 okd = True
     chk.check(okd, rule, 'decode_usb::checksum-before-decode', file=D, line=dec.lineno, func='decode_usb',
               expected='_decode is reachable only through the `computed checksum == stored byte` edge', found='dominated' if okd else 'a packet with a wrong checksum can reach _decode')
+
+# ---------------------------------------------------------------------------
+# C12
+# ---------------------------------------------------------------------------
+def rx_rules(chk, program):
+    nput = 0
+    for q, classes in sorted(impls(program, '_receive_impl').items()):
+        g = cfg_of(program, q)
+        fn = g.fn
+        decs = nodes_calling(g, lambda c: isinstance(c.func, ast.Attribute) and c.func.attr.startswith('decode_') and is_self_attr(c.func.value, ('decoder',)))
+        chk.check(bool(decs), 'RX-CONTAIN', f"{q}::has-decode", file=IO, line=fn.lineno, func=q, expected='calls self.decoder.decode_*', found=len(decs), nontrivial=False)
+        for nid, c in decs:
+            inst = f"{q}::{c.func.attr}"
+            hs = [v for v, l in g.succ[nid] if l == 'exc' and g.nodes[v].kind == 'handler']
+            generic = [h for h in hs if any(x in ('Exception', 'BaseException', '<bare>') for x in handler_names(g.nodes[h].ast))]
+            # the exception edge must not reach the raise exit before a generic handler
+            leaks = any(v == g.raise_exit.id for v, l in g.succ[nid] if l == 'exc')
+            ok = bool(generic) and not leaks
+            if ok:
+                H = generic[0]
+                # handler must not re-raise: raise_exit not reachable from the handler through explicit Raise statements
+                reraises = [n for n in g.reach(H, include_src=True) if g.nodes[n].kind == 'stmt' and isinstance(g.nodes[n].ast, ast.Raise)
+                            and _contains_node(ast.Module(body=g.nodes[H].ast.body, type_ignores=[]), g.nodes[n].ast)]
+                ok = not reraises
+            chk.check(ok, 'RX-CONTAIN', inst, file=IO, line=c.lineno, func=q,
+                      expected='decode call inside try/except Exception whose handler does not re-raise (a bad packet never ends the receive loop)',
+                      found='contained' if ok else ('exception leaves _receive_impl' if leaks or not generic else 'handler re-raises'),
+                      detail=f"classes: {', '.join(classes)}")
+        puts = nodes_calling(g, lambda c: call_name(c) in ('self.queue.put', 'self.queue.put_nowait'))
+        chk.check(bool(puts), 'RX-ONCE', f"{q}::has-put", file=IO, line=fn.lineno, func=q, expected='queue.put of the decoded message', found=len(puts), nontrivial=False)
+        for pid, pc in puts:
+            nput += 1
+            # at most one put per decode result: every cycle through the put passes a decode call, and no second put is reachable without a decode in between
+            dn = [x for x, _ in decs]
+            again = [p2 for p2, _ in puts if p2 in g.reach(pid, avoid=dn)]
+            chk.check(not again, 'RX-ONCE', f"{q}::{stmt_key(pc)}", file=IO, line=pc.lineno, func=q,
+                      expected='at most one queue.put per decoded message (another put is reachable only through another decode call)',
+                      found='ok' if not again else f"put at line {g.nodes[again[0]].line} reachable again without decoding")
+            # what is put is the decode result, guarded by `is not None`
+            arg = pc.args[0] if pc.args else None
+            okarg = False
+            if isinstance(arg, ast.Name):
+                for x, dc in decs:
+                    st = g.nodes[x].ast
+                    if isinstance(st, ast.Assign) and any(isinstance(t, ast.Name) and t.id == arg.id for t in st.targets):
+                        okarg = True
+            chk.check(okarg, 'RX-ONCE', f"{q}::put-argument", file=IO, line=pc.lineno, func=q, expected='the value returned by the decode call', found=ast.unparse(arg) if arg is not None else None)
+    # puts nowhere else
+    for mname, m in program.modules.items():
+        for node in ast.walk(m.tree):
+            if isinstance(node, ast.Call) and isinstance(node.func, ast.Attribute) and node.func.attr in ('put', 'put_nowait') and isinstance(node.func.value, ast.Attribute) and node.func.value.attr == 'queue':
+                qn = _enclosing(node)
+                if not (mname == 'ioclient' and qn.endswith('._receive_impl')):
+                    chk.violation('RX-ONCE', f"{mname}.{qn}::extra-put", file=m.rel(), line=node.lineno, expected='queue written only by _receive_impl', found=qn)
+    chk.floor('queue_put_sites', nput, 3)
+
+def q_fifo(chk, program):
+    m = io(program)
+    init = program.fn('ioclient', f"{BASE}.__init__")
+    qa = [n for n in ast.walk(init) if isinstance(n, ast.Assign) and any(is_self_attr(t, ('queue',)) for t in n.targets)]
+    okq = len(qa) == 1 and isinstance(qa[0].value, ast.Call) and call_name(qa[0].value) in ('asyncio.Queue', 'Queue') and not qa[0].value.args and \
+        all(k.arg != 'maxsize' or _const_int(k.value) == 0 for k in qa[0].value.keywords)
+    chk.check(okq, 'Q-FIFO', '__init__::queue', file=IO, line=qa[0].lineno if qa else init.lineno, func='__init__',
+              expected='self.queue = asyncio.Queue() (FIFO, unbounded)', found=ast.unparse(qa[0].value) if qa else 'absent')
+    # queue rebound elsewhere?
+    for q, f in methods_of(program).items():
+        if q == f"{BASE}.__init__":
+            continue
+        for n in ast.walk(f):
+            if isinstance(n, ast.Attribute) and n.attr == 'queue' and isinstance(n.ctx, ast.Store) and isinstance(n.value, ast.Name) and n.value.id == 'self':
+                chk.violation('Q-FIFO', f"{q}::rebinds-queue", file=IO, line=n.lineno, func=q, expected='queue created once', found='reassigned')
+    # one consumer task
+    starts = []
+    for mname, mm in program.modules.items():
+        for node in ast.walk(mm.tree):
+            if isinstance(node, ast.Call) and isinstance(node.func, ast.Attribute) and node.func.attr == '_process_queue':
+                starts.append((mname, _enclosing(node), node.lineno))
+    chk.check(len(starts) == 1 and starts[0][1] == f"{BASE}.__init__", 'Q-FIFO', 'package::one-consumer', file=IO, line=starts[0][2] if starts else 0,
+              expected='_process_queue started once, in AsyncIOClient.__init__', found=[f"{a}.{b}" for a, b, _ in starts])
+    gets = []
+    for mname, mm in program.modules.items():
+        for node in ast.walk(mm.tree):
+            if isinstance(node, ast.Call) and isinstance(node.func, ast.Attribute) and node.func.attr in ('get', 'get_nowait') and isinstance(node.func.value, ast.Attribute) and node.func.value.attr == 'queue':
+                gets.append((mname, _enclosing(node), node.lineno))
+    chk.check(len(gets) == 1 and gets[0][1] == f"{BASE}._process_queue", 'Q-FIFO', 'package::one-reader', file=IO, line=gets[0][2] if gets else 0,
+              expected='queue.get only in _process_queue', found=[f"{a}.{b}" for a, b, _ in gets])
+    q = f"{BASE}._process_queue"
+    g = cfg_of(program, q)
+    getn = [x for x, c in nodes_calling(g, lambda c: call_name(c) == 'self.queue.get')]
+    cb = []
+    # callback: awaited call of a local alias of self.receive_callback or of the attribute itself
+    aliases = {'receive_callback'}
+    for n in ast.walk(g.fn):
+        if isinstance(n, ast.Assign) and is_self_attr(n.value, ('receive_callback',)):
+            for t in n.targets:
+                if isinstance(t, ast.Name):
+                    aliases.add(t.id)
+    for n in g.nodes:
+        for c in calls_in_node(g, n.id, lambda c: (isinstance(c.func, ast.Name) and c.func.id in aliases) or is_self_attr(c.func, ('receive_callback',))):
+            cb.append((n.id, c))
+    chk.check(len(cb) == 1, 'Q-FIFO', f"{q}::one-callback-site", file=IO, line=g.fn.lineno, func=q, expected=1, found=len(cb))
+    for nid, c in cb:
+        st = g.nodes[nid].ast
+        inline = g.is_await(nid) and isinstance(c._parent, ast.Await)
+        chk.check(inline, 'Q-FIFO', f"{q}::callback-awaited-inline", file=IO, line=c.lineno, func=q,
+                  expected='`await receive_callback(message)` (no task per message: the next message waits for this callback)', found=stmt_key(st))
+        arg_ok = False
+        if c.args and isinstance(c.args[0], ast.Name):
+            for x in getn:
+                stx = g.nodes[x].ast
+                if isinstance(stx, ast.Assign) and any(isinstance(t, ast.Name) and t.id == c.args[0].id for t in stx.targets):
+                    arg_ok = True
+        chk.check(arg_ok, 'Q-FIFO', f"{q}::callback-argument", file=IO, line=c.lineno, func=q, expected='the message taken from the queue', found=ast.unparse(c.args[0]) if c.args else None)
+        tr = _enclosing_try(c, g.fn)
+        names = [handler_names(h) for h in tr.handlers] if tr is not None else []
+        flat = [x for hn in names for x in hn]
+        okt = tr is not None and 'Exception' in flat and not any(x in ('BaseException', '<bare>', 'asyncio.CancelledError', 'CancelledError') for x in flat)
+        if okt:
+            for h in tr.handlers:
+                if any(isinstance(x, ast.Raise) for x in walk_no_nested(ast.Module(body=h.body, type_ignores=[]))):
+                    okt = False
+        chk.check(okt, 'Q-FIFO', f"{q}::callback-shielded", file=IO, line=c.lineno, func=q,
+                  expected='try/except Exception (not BaseException/CancelledError), no re-raise: a failing callback never stops delivery, cancellation still works', found=names)
+        # task_done on every path from get back to the loop head
+        td = [x for x, cc in nodes_calling(g, lambda c: call_name(c) == 'self.queue.task_done')]
+        loops = [n for n in g.nodes if n.kind == 'test' and isinstance(n.ast, ast.While)]
+        for x in getn:
+            okd = bool(td) and all(w.id not in g.reach(x, avoid=td, labels_excluded=('exc',)) for w in loops)
+            chk.check(okd, 'Q-FIFO', f"{q}::task_done", file=IO, line=g.nodes[x].line, func=q, expected='task_done() on every normal path from get() to the next iteration', found='ok' if okd else 'missing on some path', nontrivial=False)
+
+def rx_frame(chk, program):
+    """framing constants: exact-read size of the EByte client == decode_tcp's packet length (largest index + 1 bound by 5 + 8)"""
+    for q, classes in sorted(impls(program, '_receive_impl').items()):
+        g = cfg_of(program, q)
+        for nid, c, meth in reader_reads(g):
+            if meth == 'readexactly':
+                n = _const_int(c.args[0]) if c.args else None
+                chk.check(n == 13, 'RX-FRAME', f"{q}::readexactly", file=IO, line=c.lineno, func=q, expected='13 = 1 type byte + 4 identifier bytes + 8 data bytes (EByte fixed framing, C06 WF-LEN13)', found=n)
+            elif meth == 'readline':
+                chk.ok('RX-FRAME', f"{q}::readline", file=IO, line=c.lineno, func=q, found='line framing (CR LF terminated text formats)', nontrivial=False)
+            elif meth == 'read':
+                chk.ok('RX-FRAME', f"{q}::read", file=IO, line=c.lineno, func=q, found='windowed framing (see C20 SER-CONST)', nontrivial=False)
+
+def ser_state(chk, program):
+    """the serial path's only persistent state is the buffer; new bytes are appended before scanning; the scan loop exits only by the two need-more-data conditions"""
+    f = serial_facts(program)
+    q, buf, g = f['q'], f['buf'], f['g']
+    cls = q.split('.')[0]
+    stores = set()
+    for n in ast.walk(g.fn):
+        if isinstance(n, ast.Attribute) and isinstance(n.ctx, (ast.Store, ast.Del)) and isinstance(n.value, ast.Name) and n.value.id == 'self':
+            stores.add(n.attr)
+    chk.check(stores <= {buf}, 'SER-STATE', f"{q}::persistent-state", file=IO, line=g.fn.lineno, func=q, expected=f"only self.{buf} written", found=sorted(stores))
+    if f['extend'] is not None and f['finds']:
+        chk.check(g.dominates(f['extend'], f['finds'][0][0]), 'SER-STATE', f"{q}::append-before-scan", file=IO, line=g.nodes[f['extend']].line, func=q,
+                  expected='new bytes appended before the marker search', found='dominates' if g.dominates(f['extend'], f['finds'][0][0]) else 'scan reachable without append')
+    # loop exits: breaks only under tests on start / len(buffer)
+    for w in [n for n in g.nodes if n.kind == 'test' and isinstance(n.ast, ast.While)]:
+        for n in g.nodes:
+            if n.kind == 'stmt' and isinstance(n.ast, (ast.Break, ast.Return)) and _contains_node(w.ast, n.ast):
+                preds = [p for p, l in g.pred[n.id] if g.nodes[p].kind == 'test']
+                startvar = f['finds'][0][1] if f['finds'] else None
+                okb = all(_test_mentions_only_start_len(g.nodes[p].ast.test, startvar, buf) for p in preds) and bool(preds)
+                chk.check(okb, 'SER-STATE', f"{q}::loop-exit::{stmt_key(g.nodes[preds[0]].ast.test) if preds else 'unconditional'}", file=IO, line=n.line, func=q,
+                          expected='scan loop exits only on need-more-data conditions over (start, len(buffer))', found=[stmt_key(g.nodes[p].ast.test) for p in preds])
+
+def _test_mentions_only_start_len(test, startvar, buf):
+    for n in ast.walk(test):
+        if isinstance(n, ast.Name) and n.id not in (startvar, 'len', 'self'):
+            return False
+        if isinstance(n, ast.Attribute) and not _is_buf(n, buf):
+            return False
+    return True
